@@ -7,3 +7,4 @@ pub mod model;
 pub mod props;
 pub mod runner;
 pub mod shmutil;
+pub mod vmem;
